@@ -58,7 +58,19 @@ def head_size(val):
     return blen(head(0, val))
 
 
-def _enc(x, canonical):
+class _MiniEnc(object):
+    ''' What a cbor2 `default` callback gets: an object with encode(). '''
+
+    def __init__(self, canonical, default):
+        self.out = b''
+        self.canonical = canonical
+        self.default = default
+
+    def encode(self, obj):
+        self.out = self.out + _enc(obj, self.canonical, self.default)
+
+
+def _enc(x, canonical, default=None):
     if isinstance(x, SBool):
         x = bool(x)
     if x is None:
@@ -94,10 +106,10 @@ def _enc(x, canonical):
     if isinstance(x, (list, tuple)):
         out = head(4, len(x))
         for i in x:
-            out = out + _enc(i, canonical)
+            out = out + _enc(i, canonical, default)
         return out
     if isinstance(x, dict):
-        items = [(_enc(k, canonical), _enc(v, canonical)) for k, v in x.items()]
+        items = [(_enc(k, canonical, default), _enc(v, canonical, default)) for k, v in x.items()]
         if canonical:
             if any(isinstance(k, SBuf) for k, _ in items):
                 raise Unsupported('canonical map with symbolic keys')
@@ -107,20 +119,24 @@ def _enc(x, canonical):
             out = out + k + v
         return out
     if isinstance(x, CBORTag):
-        return head(6, x.tag) + _enc(x.value, canonical)
+        return head(6, x.tag) + _enc(x.value, canonical, default)
     if isinstance(x, CBORSimpleValue):
         return _real.dumps(x)
     if isinstance(x, float):
         return _real.dumps(x, canonical=canonical)
     if isinstance(x, (set, frozenset)):
-        return head(6, 258) + _enc(list(x), canonical)
+        return head(6, 258) + _enc(list(x), canonical, default)
+    if default is not None:
+        e = _MiniEnc(canonical, default)
+        default(e, x)
+        return e.out
     raise CBOREncodeError('cannot serialize type %s' % type(x).__name__)
 
 
 def dumps(obj, **kw):
     if not deep_sym(obj):
         return _real.dumps(obj, **kw)
-    return _enc(obj, bool(kw.get('canonical')))
+    return _enc(obj, bool(kw.get('canonical')), kw.get('default'))
 
 
 def dump(obj, fp, **kw):
